@@ -27,7 +27,8 @@ from kv.props import c19_drive as drv
 RULE = ('cases = fault scripts over (<= 6 object changes) x (stream end eof/connection/payload/timeout, inactivity timeout, '
         'in-stream 410 by compaction or injection, bookmark, unknown event type, unknown ERROR, HTTP faults '
         'conn/timeout/5xx/429/403/4xx on LIST and WATCH with 0..2 api.request retries, pause/resume) x (request latency, '
-        'consumer delay): every single fault at every position exhaustively + random multi-fault scripts; insight '
+        'consumer delay, initial server version just below a power of ten so that versions gain a digit inside a watch run): '
+        'every single fault at every position exhaustively + digit-crossing reconnect scripts + random multi-fault scripts; insight '
         'histories (namespaces/resources appearing and disappearing, cluster-scoped and namespaced kinds, peering on/off) '
         'for adjust_tasks; non-trivial iff >= 1 fault lies between two object changes (scripts) / >= 2 insight changes '
         'with a removal (histories); distinct after canonicalisation')
@@ -288,9 +289,10 @@ def fault_kinds(retries: int) -> dict[str, list[list]]:
 
 def exhaustive_scripts(thorough: bool) -> list[tuple[list, dict, str]]:
     out = []
-    cfgs = [{'retries': 0}, {'retries': 1, 'latency': 0.25}, {'retries': 2, 'consumer_delay': 0.0625}]
+    # rv0: the listing is at one digit count, the events after it at the next (8 -> a=9, then 10...; 98 -> 99, 100...)
+    cfgs = [{'retries': 0, 'rv0': 8}, {'retries': 1, 'latency': 0.25, 'rv0': 98}, {'retries': 2, 'consumer_delay': 0.0625}]
     if thorough:
-        cfgs += [{'retries': 1}, {'retries': 0, 'latency': 0.25, 'consumer_delay': 0.0625}]
+        cfgs += [{'retries': 1, 'rv0': 997}, {'retries': 0, 'latency': 0.25, 'consumer_delay': 0.0625}, {'retries': 0}]
     for cfg in cfgs:
         kinds = fault_kinds(cfg['retries'])
         n = len(BASE_CHANGES)
@@ -332,8 +334,33 @@ def exhaustive_scripts(thorough: bool) -> list[tuple[list, dict, str]]:
     return out
 
 
+RV0_POOL = [100, 100, 6, 7, 8, 9, 96, 97, 98, 99, 996, 997, 998, 999, 9998]
+
+
+def digit_scripts(thorough: bool) -> list[tuple[list, dict, str]]:
+    """resourceVersions are opaque strings: the version counter starts just below a power of ten so that events AND
+    bookmarks gain a digit (9->10, 99->100, 999->1000) inside one watch run; then an inner reconnect (no re-list) and
+    more events.  '10' < '9' as strings: a client that orders versions would resume from a stale one."""
+    out = []
+    reconnects = [[['end', 'eof']], [['end', 'connection']], [['end', 'payload']], [['end', 'timeout']], [['run', 65]],
+                  [['fault', 'watch', 'conn', 1], ['end', 'eof']]]
+    rv0s = [6, 7, 8, 9, 97, 98, 99, 997, 998, 999] + ([5, 96, 996, 9997, 9998, 9999] if thorough else [])
+    n = len(BASE_CHANGES)
+    for rv0 in rv0s:
+        for ri, rec in enumerate(reconnects):
+            cfg = {'retries': 1, 'rv0': rv0} if ri % 2 == 0 else {'retries': 1, 'rv0': rv0, 'latency': 0.25}
+            for p in range(1, n + 1):
+                for pre in ([], [['bookmark']], [['bookmark'], ['bookmark']]):
+                    # events (and bookmarks) cross the boundary, the stream reconnects, events go on, it reconnects again
+                    script = ([['create', 'a'], ['start']] + BASE_CHANGES[:p] + pre + rec + BASE_CHANGES[p:] + [['bookmark']] + rec
+                              + [['create', 'c'], ['modify', 'c']])
+                    out.append((script, cfg, 'digits'))
+    return out
+
+
 def random_script(r: Any) -> tuple[list, dict, str]:
-    cfg = {'retries': r.choice([0, 1, 1, 2]), 'latency': r.choice([0, 0, 0.25]), 'consumer_delay': r.choice([0, 0, 0.0625])}
+    cfg = {'retries': r.choice([0, 1, 1, 2]), 'latency': r.choice([0, 0, 0.25]), 'consumer_delay': r.choice([0, 0, 0.0625]),
+           'rv0': r.choice(RV0_POOL)}
     if r.random() < 0.1:
         cfg['start_paused'] = True
     names = ['a', 'b', 'c']
@@ -399,6 +426,7 @@ def watch_layer(ctx: fw.Ctx, header: str = HEADER) -> None:
             if body.get('layer', 'watch') == 'watch':
                 scripts.append((body['script'], body['cfg'], 'corpus'))
     scripts += exhaustive_scripts(ctx.thorough)
+    scripts += digit_scripts(ctx.thorough)
     for _ in range(ctx.scale(500, 20000)):
         scripts.append(random_script(ctx.rng))
 
@@ -414,6 +442,18 @@ def watch_layer(ctx: fw.Ctx, header: str = HEADER) -> None:
         if r.get('callback_errors'):
             ctx.count('observation', 'api.stream request_cancel_callback failed (' + ','.join(sorted(set(r['callback_errors']))) + ')')
         ctx.count('outcome', 'stall' if r.get('stall') else 'dead' if r['dead'] else 'alive')
+        # did the versions gain a digit inside one watch run, with an inner reconnect (no re-list) after that?
+        width: set[int] = set()
+        crossed = False
+        for l in r['labels']:
+            if l['l'] == 'ListOk':
+                width, crossed = ({len(str(l['rv']))} if l['rv'] is not None else set()), False
+            elif l['l'] == 'Line' and l['line'] == 'ev' and l['rv'] is not None:
+                width.add(len(str(l['rv'])))
+            elif l['l'] == 'ReqWatch' and len(width) > 1:
+                crossed = True
+                break
+        ctx.count('version_digits', 'gained a digit inside a watch run, then reconnected without re-list' if crossed else 'no')
         if nontrivial(script):
             ctx.nontriv([script, cfg])
         for f in monitor(r, cfg):
@@ -426,7 +466,7 @@ def watch_layer(ctx: fw.Ctx, header: str = HEADER) -> None:
             ctx.correspondence_break('T:watch', {'case': data, 'error': str(e)})
             continue
         tr = cq.clist(labels)
-        w0 = f'(winit {cq.cbool(bool(cfg.get("start_paused", False)))} 100)'
+        w0 = f'(winit {cq.cbool(bool(cfg.get("start_paused", False)))} {cq.cZ(int(cfg.get("rv0", 100)))})'
         term = f'match wrej {cq.cnat(int(cfg.get("retries", 0)))} {w0} {tr} 0 with None => true | Some _ => false end'
         cases.append(fw.Case(term, {**data, 'labels': [brief(l) for l in r['labels']]},
                              diag=f'wrej {cq.cnat(int(cfg.get("retries", 0)))} {w0} {tr} 0'))
